@@ -11,7 +11,7 @@ From QSX Require Import Fac.FTUpdate.
 From QSX Require Import Store.Matrix Store.L2.
 From QSX Require Import IO.LpWrite IO.LpRead IO.MpsWrite IO.LpRoundtrip IO.LpNames.
 (* one Require line per area may be added below *)
-From QSX Require Import Fac.LUFactor.
+From QSX Require Import Fac.LUFactor Fac.TopoOrder.
 
 Extraction Language OCaml.
 Extraction "model.ml"
@@ -34,5 +34,5 @@ Extraction "model.ml"
   l2_step_c l2_load_c l2_copy_c empty_lstore lwf_check wf_check abs col_ents
   write_lp file_bytes read_lp_res split_lines to_nlp write_mps wf_lpb fix_names default_objname
   (* add names below, one line per area *)
-  lu_factor lu_steps lu_init lu_kernel lu_auto_pivots repr_same_lu repair_cols check_sing_report lines_eqb etas_eqb natlist_eqb
+  lu_factor lu_steps lu_init lu_kernel lu_auto_pivots repr_same_lu repair_cols check_sing_report lines_eqb etas_eqb natlist_eqb listed_order_ok
   .
